@@ -1190,3 +1190,67 @@ CATALOGUE['C15'] = [
       """        self.modifiers = tuple(
             f for n, f in modifiers if n in args and args[n])"""),
 ]
+
+# --------------------------------------------------------------------- C03
+CATALOGUE['C03'] = [
+    V('escaper without quote flag', 'html_quote.py',
+      "    return escape(v, 1)", "    return escape(v, 0)", 'C03.R1'),
+    V('escaper quote=False keyword', 'html_quote.py',
+      "    return escape(v, 1)", "    return escape(v, quote=False)",
+      'C03.R1'),
+    V('escaper post-processes', 'html_quote.py',
+      "    return escape(v, 1)",
+      "    v = escape(v, 1)\n    return v.replace('&#x27;', \"'\")",
+      'C03.R1'),
+    V('fmt=html-quote uses a different escaper', 'DT_Var.py',
+      "    'html-quote': html_quote,", "    'html-quote': sql_quote,",
+      'C03.R1'),
+    V('fast path forgets the double quote', '_DocumentTemplate.py',
+      """'>' in t or '"' in t or  # NOQA: W504,E501""",
+      """'>' in t or  # NOQA: W504,E501""", 'C03.R2'),
+    V('fast path forgets the apostrophe (the repaired defect)',
+      '_DocumentTemplate.py',
+      """'"' in t or  # NOQA: W504,E501
+                                "'" in t):""",
+      """'"' in t):""", 'C03.R2'),
+    V('fast path polarity inverted', '_DocumentTemplate.py',
+      """                            # so we cant skip the quoting process
+                            skip_html_quote = 0
+                        else:
+                            skip_html_quote = 1""",
+      """                            # so we cant skip the quoting process
+                            skip_html_quote = 1
+                        else:
+                            skip_html_quote = 0""", 'C03.R2'),
+    V('entity appends html-quote', 'DT_HTML.py',
+      "d[3] = d['args'] = args + ' html_quote'",
+      "d[3] = d['args'] = args + ' html-quote'", 'C03.R3'),
+    V('simple form keyed on another option', 'DT_Var.py',
+      "elif len(args) == 2 and fmt == 's' and 'html_quote' in args:",
+      "elif len(args) == 2 and fmt == 's' and 'html-quote' in args:",
+      'C03.R3'),
+    V('modifier loop recognises wrong name', 'DT_Var.py',
+      "if f.__name__ == 'html_quote' and isinstance(val, TaintedString):",
+      "if f.__name__ == 'html-quote' and isinstance(val, TaintedString):",
+      'C03.R3'),
+    V('entity modifiers not split', 'DT_HTML.py',
+      "args[:nn].replace('.', ' '))", "args[:nn])", 'C03.R3'),
+    V('plain path strips the value', '_DocumentTemplate.py',
+      """                if not isinstance(t, (str, bytes)):
+                    t = ustr(t)
+""",
+      """                if not isinstance(t, (str, bytes)):
+                    t = ustr(t)
+                else:
+                    t = t.strip()
+""", 'C03.R4'),
+    # silent
+    V('silent: predicate written with any()', '_DocumentTemplate.py',
+      """                        if ('&' in t or '<' in t or '>' in t or '"' in t or  # NOQA: W504,E501
+                                "'" in t):""",
+      """                        if any(c in t for c in '&<>"\\''):"""),
+    V('silent: escape(v) default quote', 'html_quote.py',
+      "    return escape(v, 1)", "    return escape(v)"),
+    V('silent: escape(v, quote=True)', 'html_quote.py',
+      "    return escape(v, 1)", "    return escape(v, quote=True)"),
+]
